@@ -66,7 +66,7 @@ func C01() int {
 	reportBatchAnomalies(c)
 	ls.put(c)
 	c.Set("flag_sets", flagNames(fsets))
-	c.Set("race_reports", s.RaceReports())
+	raceVerdict(s, c)
 	c.Set("sut_statement_coverage_percent", s.CoverFuncs())
 	if c.Counter("sens_leaves_searched") < 20000 {
 		c.Inconclusive(fmt.Sprintf("only %d sensitive leaves searched", c.Counter("sens_leaves_searched")))
